@@ -31,7 +31,7 @@ type pendingOp struct {
 
 // maxPending caps the calls of one kind sent to the child (each of them
 // spins a core until the child is killed).
-const maxPending = 24
+const maxPending = 16
 
 func (e *env) defer_(req probeReq, line string, then func(string)) {
 	n := 0
@@ -89,7 +89,7 @@ func probeChild(in string) error {
 	for i := range out {
 		out[i] = "hang"
 	}
-	deadline := time.After(1500 * time.Millisecond)
+	deadline := time.After(2500 * time.Millisecond)
 	for n := 0; n < len(reqs); n++ {
 		select {
 		case r := <-ch:
